@@ -359,13 +359,13 @@ func checkC13Conc(c C13ConcCase) (vs []*Violation) {
 	go func() { wg.Wait(); close(done) }()
 	select {
 	case <-done:
-	case <-time.After(30 * time.Second):
+	case <-time.After(90 * time.Second):
 		buf := make([]byte, 1<<20)
 		buf = buf[:runtime.Stack(buf, true)]
 		if blockedInRelease(string(buf)) {
 			addV(viol("", "workers are parked in a channel send inside Release*: releasing a compressor blocks (N=%d, capacity=%d)", c.N, c.Capacity))
 		} else {
-			inconclusive("C13", "TestC13Conc", "workers did not finish within 30s and no goroutine is parked in Release*")
+			inconclusive("C13", "TestC13Conc", "workers did not finish within 90s and no goroutine is parked in Release*")
 		}
 		// free parked senders so that no worker outlives the case
 		for i := 0; i < 4*c.N+8; i++ {
@@ -487,13 +487,13 @@ func checkC13Release(c C13ReleaseCase) (vs []*Violation) {
 		}
 		select {
 		case <-done:
-		case <-time.After(3 * time.Second):
+		case <-time.After(20 * time.Second):
 			buf := make([]byte, 1<<20)
 			buf = buf[:runtime.Stack(buf, true)]
 			if blockedInRelease(string(buf)) {
 				vs = append(vs, viol("", "round %d: %d goroutines released a %s at the same moment into a cache of capacity %d with %d free slots; at least one is parked in the channel send inside Release*", r, c.G, c.Kind, c.Capacity, c.Free))
 			} else {
-				inconclusive("C13", "TestC13Release", "concurrent releases did not return within 3s and no goroutine is parked in Release*")
+				inconclusive("C13", "TestC13Release", "concurrent releases did not return within 20s and no goroutine is parked in Release*")
 			}
 			// unblock the stuck goroutines so that they do not outlive the case
 			for i := 0; i < c.G; i++ {
